@@ -112,7 +112,8 @@ theorem srvRel_fetch {s : State} (h : Inv s) (now : Time) (k : Key) : SrvRel s (
 structure L1Rel (l l' : State) (src : Key → Option Entry) : Prop where
   inv : Inv l → Inv l'
   ent : ∀ k e, abs l' k = some e → abs l k = some e ∨
-    ∃ es, src k = some es ∧ es.val = e.val ∧ es.deadline = e.deadline ∧ es.gen = e.gen
+    ∃ es, src k = some es ∧ es.val = e.val ∧ es.deadline = e.deadline ∧ es.gen = e.gen ∧
+      ∀ t ∈ backTrigs es.trigs, t ∈ e.trigs
 
 theorem l1Rel_refl (l : State) (src : Key → Option Entry) : L1Rel l l src := ⟨id, fun _ _ h => Or.inl h⟩
 
@@ -133,7 +134,8 @@ theorem l1Rel_nonstore {l : State} (h : Inv l) (op : C07.Op) (src : Key → Opti
 
 /-- the L1 is fed with a copy of what the responsible server answered -/
 theorem l1Rel_store {l : State} (h : Inv l) (now : Time) (k : Key) (v : Val) (tags : List Key) (d : Time) (g : Gen)
-    (src : Key → Option Entry) {ts : List Key} (hsrc : src k = some ⟨v, ts, d, g⟩) :
+    (src : Key → Option Entry) {ts : List Key} (hsrc : src k = some ⟨v, ts, d, g⟩)
+    (htags : ∀ t ∈ backTrigs ts, t ∈ tags) :
     L1Rel l (C07.step l (.store now k v tags d (some g))).1 src := by
   refine ⟨fun h => inv_step h _, fun k' e he => ?_⟩
   rcases entries_step h _ he with h1 | h1
@@ -146,7 +148,7 @@ theorem l1Rel_store {l : State} (h : Inv l) (now : Time) (k : Key) (v : Val) (ta
       simp only [Option.map_some, Option.some.injEq, Prod.mk.injEq] at h1
       obtain ⟨hk, he'⟩ := h1
       subst hk; subst he'
-      exact ⟨_, hsrc, rfl, rfl, rfl⟩
+      exact ⟨_, hsrc, rfl, rfl, rfl, fun t ht => mem_ownTrigs.mpr (Or.inr (htags t ht))⟩
 
 end Cppcms.C10
 
